@@ -324,7 +324,7 @@ fn base_states(run: &Run, thorough: bool) -> Vec<(Node, Node)> {
             }
         };
         bfs(&eng, vec![root], if thorough { 6 } else { 3 }, 100_000, &acts, &visit);
-        let sealed = collected.into_inner();
+        let sealed = canonical_order(collected.into_inner());
         for s in sealed.into_iter().take(if thorough { 40 } else { 8 }) {
             if let StepOut::Next(o) = eng.step(&s, &Action::Open) {
                 bases.push((s, o));
